@@ -68,6 +68,17 @@ def canonical_columns_hold(ibits, shape, nsub):
     return True, '', pos
 
 
+def apply_short_strings(c):
+    """Every character entry becomes a very short string (the same in all subsets for odd seeds: an all-equal column)."""
+    pool = [b'ALPHA', b'A', b'OSLO 2', b'', b'xy']
+    for j, toks in enumerate(c['val_toks']):
+        for i, t in enumerate(toks):
+            if t[0] == 'y':
+                nb = pool[(c['seed'] + (0 if c['seed'] % 2 else j) + i) % len(pool)]
+                toks[i] = 'y' + (nb.hex() or '-')
+                c['py_vals'][j][i] = nb
+
+
 def apply_strip_equal(c):
     """Every character entry becomes 'OS' behind a per-subset prefix of white space: equal after str.strip(), different bytes."""
     pads = [b'', b' ', b'  ', b'\t', b'\n ', b'\x0c']
@@ -128,8 +139,21 @@ def run(ctx):
         ids = [[1001, st, 12101], [208006, st, 208000, st], [st, st], [205004, st]][(k // 4) % 4]
         cases.append({'ids': ids, 'version': 33, 'edition': 4, 'nsub': rng.choice([2, 3, 4]), 'compressed': True, 'forced': '-',
                       'seed': rng.randrange(1, 2 ** 32), 'maxrep': 3, 'features': {'strings-equal-after-strip': 1}, 'shared': True})
+    # very wide character fields (66..200 octets under 205YYY / 208YYY) holding very short strings: more than 64 octets of
+    # blank padding in one field
+    for k in range(ctx.n(9, 60)):
+        y = [66, 100, 130, 200, 90, 255][k % 6]
+        ids = [[208000 + y, 1015, 208000, 1001], [205000 + y, 1001], [208000 + y, 1019, 1015, 208000, 12101]][(k // 2) % 3]
+        comp = k % 2 == 1
+        cases.append({'ids': ids, 'version': 33, 'edition': 4, 'nsub': rng.choice([2, 3]) if comp else rng.choice([1, 2]),
+                      'compressed': comp, 'forced': '-', 'seed': rng.randrange(1, 2 ** 32), 'maxrep': 3,
+                      'features': {'short-string-in-very-wide-field': 1}, 'shared': comp})
     P.attach_templates(cases)
     P.run_gen(cases)
+    for c in cases:
+        if c['features'].get('short-string-in-very-wide-field') and c.get('val_toks'):
+            apply_short_strings(c)
+            c['short_strings'] = True
     for c in cases:
         if c['features'].get('strings-equal-after-strip') and c.get('val_toks'):
             apply_strip_equal(c)
@@ -144,7 +168,7 @@ def run(ctx):
             c['missing_strings'] = True
     import random
     for c in cases:
-        if c.get('missing_strings') or c.get('strip_equal'):
+        if c.get('missing_strings') or c.get('strip_equal') or c.get('short_strings'):
             continue
         if c.get('val_toks') and (c['features'].get('wide-character-field') or rng.random() < 0.3):
             # derived from the case's own seed so that a replay varies the same strings the same way
@@ -174,7 +198,7 @@ def run(ctx):
         case = {'ids': c['ids'], 'seed': c['seed'], 'forced': c['forced'], 'nsub': c['nsub'],
                 'version': c['version'], 'edition': c['edition'], 'compressed': c['compressed'],
                 'vary_strings': bool(c.get('vary_strings')), 'missing_strings': bool(c.get('missing_strings')),
-                'strip_equal': bool(c.get('strip_equal'))}
+                'strip_equal': bool(c.get('strip_equal')), 'short_strings': bool(c.get('short_strings'))}
         eq, detail = P.compare_encode(c)
         if c['impl_enc'][0] == 'ok':
             # section 3: the descriptor list is packed F (2 bits) X (6) Y (8), 16 bits each, nothing dropped
@@ -262,6 +286,8 @@ def replay(ctx, rec):
         P.vary_string_lengths(cases[0], random.Random(c['seed'] ^ 0x5A5A5A))
     if c.get('strip_equal'):
         apply_strip_equal(cases[0])
+    if c.get('short_strings'):
+        apply_short_strings(cases[0])
     P.run_encode(cases); P.run_decode(cases)
     eq, detail = P.compare_encode(cases[0])
     if not eq:
